@@ -5,13 +5,20 @@ import (
 	"fmt"
 	"os"
 
-	_ "github.com/formancehq/ledger/verifh/pschema"
+	"github.com/formancehq/ledger/verifh/pschema"
 	"github.com/formancehq/ledger/verifh/reg"
 )
 
 func main() {
+	if len(os.Args) == 3 && os.Args[1] == "replay" {
+		code, err := pschema.Replay(os.Args[2])
+		if err != nil {
+			fmt.Println("ENGINE-ERROR replay:", err)
+		}
+		os.Exit(code)
+	}
 	if len(os.Args) < 3 || os.Args[1] != "run" {
-		fmt.Println("usage: vcheckp run <ID>")
+		fmt.Println("usage: vcheckp run <ID> | replay <file>")
 		os.Exit(2)
 	}
 	c, ok := reg.Lookup(os.Args[2])
